@@ -121,6 +121,10 @@ MAPS01 = {
     "aff34": lambda x: x * 0.75 + 0.25,
     "cube": lambda x: x * x * x,
     "sqrt": lambda x: torch.sqrt(x),
+    # exact power-of-two squeezes: order and ties are kept exactly, but distinct scores end up 2^-30 .. 2^-52 apart —
+    # an "equal up to noise" tie test (an absolute tolerance instead of != 0) shows only here
+    "squeeze30": lambda x: x * 2.0 ** -30,
+    "squeeze22": lambda x: x * 2.0 ** -22,
 }
 MAPSR = {
     "aff": lambda x: x * 2.0 - 3.0,
@@ -128,6 +132,7 @@ MAPSR = {
     "cube": lambda x: x * x * x,
     "exp": lambda x: torch.exp(x),
     "half": lambda x: x * 0.5,
+    "squeeze30": lambda x: x * 2.0 ** -30,
 }
 
 
